@@ -19,12 +19,12 @@ INTERNAL_OPS = ["Add", "Multiply", "Minus", "Divide", "Power", "Negation", "Reci
                 "Cosine", "Sine", "NthPower", "NthRoot", "Exponential", "Logarithm"]
 
 STEP_KINDS = ["at", "at_num", "mk_partial", "mk_derivative", "mk_differential", "mk_located",
-              "pat", "dat", "comp", "compat", "lcomp", "asx", "build", "norm", "eq", "hash", "repr"]
+              "pat", "dat", "comp", "compat", "lcomp", "asx", "build", "norm", "eq", "hash", "repr", "peq"]
 
 DEFAULT_WEIGHTS = {
     "at": 10, "at_num": 2, "mk_partial": 4, "mk_derivative": 1.5, "mk_differential": 2.5,
     "mk_located": 3, "pat": 8, "dat": 3, "comp": 2.5, "compat": 3, "lcomp": 2, "asx": 2.5,
-    "build": 2.5, "norm": 1.2, "eq": 1, "hash": 0.5, "repr": 0.7,
+    "build": 2.5, "norm": 1.2, "eq": 1, "hash": 0.5, "repr": 0.7, "peq": 0.4,
 }
 
 
@@ -237,7 +237,8 @@ def _wchoice(rng, items, weights):
     return items[-1]
 
 
-def gen_steps(rng, pr, nodes, info, all_vars, n_points):
+def gen_steps(rng, pr, nodes, info, all_vars, points):
+    n_points = len(points)
     pool = _Pool(nodes, info)
     # each client gets favourite roots among the deeper nodes
     exprs = pool.of_type("E")
@@ -438,6 +439,8 @@ def gen_steps(rng, pr, nodes, info, all_vars, n_points):
             st.update(k="hash", o=rng.choice(pool.entries)["name"])
         elif kind == "repr":
             st.update(k="repr", o=rng.choice(pool.entries)["name"])
+        elif kind == "peq":
+            st.update(k="peq", p=p, twin=sorted([list(c) for c in points[p]]))
         else:
             continue
         steps.append(st)
@@ -450,7 +453,7 @@ def gen_scenario(rng, base=None):
     nodes, info, ord_vars, trip_vars, miss_vars = gen_world(rng, pr)
     points = gen_points(rng, pr, ord_vars, trip_vars, miss_vars)
     all_vars = ord_vars + trip_vars + miss_vars
-    steps = gen_steps(rng, pr, nodes, info, all_vars, len(points))
+    steps = gen_steps(rng, pr, nodes, info, all_vars, points)
     return {"nodes": nodes, "points": points, "steps": steps, "vars": all_vars + ["absent_v"]}
 
 
